@@ -89,6 +89,45 @@ json.dump({"reused": reused, "fresh_last": fresh[-1], "fresh_all": fresh}, sys.s
 '''
 
 
+_REWRITE_DRIVER = r'''
+import json, sys
+from json_to_models.cli import Cli
+steps = json.load(sys.stdin)
+def strip(text):
+    lines = text.split("\n")
+    return "\n".join(lines[4:]) if len(lines) >= 4 and lines[0] == 'r"""' else text
+out = []
+for st in steps:
+    if "write" in st:
+        for name, content in st["write"].items():
+            with open(name, "w", encoding="utf-8") as f:
+                f.write(content)
+        continue
+    try:
+        cli = Cli()
+        cli.parse_args(st["argv"])
+        out.append({"ok": strip(cli.run())})
+    except SystemExit:
+        out.append({"err": "SystemExit"})
+    except Exception as e:
+        out.append({"err": type(e).__name__})
+json.dump(out, sys.stdout)
+'''
+
+
+def run_cli_rewrites(steps, cwd, repo=None, timeout=120):
+    """several command lines in ONE process (a fresh `Cli` object each), the input files being rewritten between them:
+    steps are {"write": {name: text}} or {"argv": [...]}; returns the code after the header of every argv step"""
+    env = dict(os.environ)
+    env["PYTHONPATH"] = repo or os.environ.get("J2M_REPO", "/repo")
+    env["PYTHONIOENCODING"] = "utf-8"
+    p = subprocess.run([sys.executable, "-c", _REWRITE_DRIVER], input=json.dumps(steps).encode("utf-8"), cwd=cwd, env=env,
+                       stdout=subprocess.PIPE, stderr=subprocess.PIPE, timeout=timeout)
+    if p.returncode != 0:
+        raise RuntimeError("rewrite driver failed: " + p.stderr.decode("utf-8", "replace")[-800:])
+    return json.loads(p.stdout.decode("utf-8"))
+
+
 def run_cli_sequence(argvs, cwd, repo=None, timeout=120):
     """ONE `Cli` object handling several command lines one after the other in one process (parse_args + run each), and a
     fresh `Cli` object for each command line in the same process; code after the header"""
